@@ -4,10 +4,12 @@ import DigModel.Props.C02
 import DigModel.Props.C03
 import DigModel.Props.C04
 import DigModel.Props.C05
+import DigModel.Props.C06
 import DigModel.Props.C07
 import DigModel.Props.C10
 import DigModel.Props.C11
 import DigModel.Props.C12
 import DigModel.Props.C13
+import DigModel.Props.C14
 import DigModel.Props.C17
 import DigModel.Props.C20
